@@ -547,6 +547,20 @@ class Randomizer(RandIF):
             saved.append((fm.size, fm.size.is_used_rand))
 
     @staticmethod
+    def _trim_randsz_lists(fm, in_set):
+        if fm in in_set:
+            return
+        in_set.add(fm)
+        if hasattr(fm, "field_l"):
+            if getattr(fm, "is_rand_sz", False) and getattr(fm, "is_scalar", False) and \
+                    getattr(fm, "presolve_len", None) is not None:
+                if len(fm.field_l) > fm.presolve_len:
+                    del fm.field_l[fm.presolve_len:]
+                fm._set_size(len(fm.field_l))
+            for f in fm.field_l:
+                Randomizer._trim_randsz_lists(f, in_set)
+
+    @staticmethod
     def do_randomize(
             randstate,
             srcinfo : SourceInfo,
@@ -616,61 +630,70 @@ class Randomizer(RandIF):
         for c in constraint_l:
             clear_soft_priority.clear(c)
 
-        # Collect all variables (pre-array) and establish bounds            
-        bounds_v = VariableBoundVisitor()
-        bounds_v.process(field_model_l, constraint_l, False)
-
-        # TODO: need to handle inline constraints that impact arrays
-        constraints_len = len(constraint_l)
-        for fm in field_model_l:
-            constraint_l.extend(ArrayConstraintBuilder.build(
-                fm, bounds_v.bound_m))
-            # Now, handle dist constraints
-            DistConstraintBuilder.build(randstate, fm)
-            
-        for c in constraint_l:
-            constraint_l.extend(ArrayConstraintBuilder.build(
-                c, bounds_v.bound_m))
-            # Now, handle dist constraints
-            DistConstraintBuilder.build(randstate, c)
-
-        # If we made changes during array remodeling,
-        # re-run bounds checking on the updated model
-#        if len(constraint_l) != constraints_len:
-        bounds_v.process(field_model_l, constraint_l)
-
-        if debug > 0:
-            print("Final Model:")        
-            for fm in field_model_l:
-                print("  " + ModelPrettyPrinter.print(fm))
-            for c in constraint_l:
-                print("  " + ModelPrettyPrinter.print(c, show_exp=True))
-
-#        if lint > 0:
-#            LintVisitor().lint(
-#                field_model_l,
-#                constraint_l)
-            
-
-        r = Randomizer(
-            randstate,
-            solve_info=solve_info,
-            debug=debug, 
-            lint=lint, 
-            solve_fail_debug=solve_fail_debug)
-#        if Randomizer._rng is None:
-#            Randomizer._rng = random.Random(random.randrange(sys.maxsize))
-        ri = RandInfoBuilder.build(field_model_l, constraint_l, Randomizer._rng)
-        
-        if verif_hook.enabled:
-            verif_hook.emit("pre_solve",
-                            field_model_l=field_model_l,
-                            constraint_l=constraint_l,
-                            rand_info=ri,
-                            bound_m=bounds_v.bound_m)
-        
+        # Everything from here on modifies the model for the duration of 
+        # this call (foreach/dist rewrites, grown random-size lists): all of 
+        # it is undone when the call ends, however it ends
         try:
+            # Collect all variables (pre-array) and establish bounds            
+            bounds_v = VariableBoundVisitor()
+            bounds_v.process(field_model_l, constraint_l, False)
+
+            # TODO: need to handle inline constraints that impact arrays
+            constraints_len = len(constraint_l)
+            for fm in field_model_l:
+                constraint_l.extend(ArrayConstraintBuilder.build(
+                    fm, bounds_v.bound_m))
+                # Now, handle dist constraints
+                DistConstraintBuilder.build(randstate, fm)
+            
+            for c in constraint_l:
+                constraint_l.extend(ArrayConstraintBuilder.build(
+                    c, bounds_v.bound_m))
+                # Now, handle dist constraints
+                DistConstraintBuilder.build(randstate, c)
+
+            # If we made changes during array remodeling,
+            # re-run bounds checking on the updated model
+    #        if len(constraint_l) != constraints_len:
+            bounds_v.process(field_model_l, constraint_l)
+
+            if debug > 0:
+                print("Final Model:")        
+                for fm in field_model_l:
+                    print("  " + ModelPrettyPrinter.print(fm))
+                for c in constraint_l:
+                    print("  " + ModelPrettyPrinter.print(c, show_exp=True))
+
+    #        if lint > 0:
+    #            LintVisitor().lint(
+    #                field_model_l,
+    #                constraint_l)
+            
+
+            r = Randomizer(
+                randstate,
+                solve_info=solve_info,
+                debug=debug, 
+                lint=lint, 
+                solve_fail_debug=solve_fail_debug)
+    #        if Randomizer._rng is None:
+    #            Randomizer._rng = random.Random(random.randrange(sys.maxsize))
+            ri = RandInfoBuilder.build(field_model_l, constraint_l, Randomizer._rng)
+        
+            if verif_hook.enabled:
+                verif_hook.emit("pre_solve",
+                                field_model_l=field_model_l,
+                                constraint_l=constraint_l,
+                                rand_info=ri,
+                                bound_m=bounds_v.bound_m)
+        
             r.randomize(ri, bounds_v.bound_m)
+        except:
+            # The call failed: random-size lists go back to the elements
+            # they held when it started
+            for fm in field_model_l:
+                Randomizer._trim_randsz_lists(fm, set())
+            raise
         finally:
             # Rollback any constraints we've replaced for arrays
             if solve_info is not None:
